@@ -78,6 +78,18 @@ CLAIMED = {
     "C15": ("§4 C15", "TLC evaluates the combinatorial definitions by exhaustive enumeration (SUBSET of maximal edges) "
             "as exact rationals with a NaN marker, on every TLC-enumerated hypergraph without repeated edges x "
             "min_size x exclude_min_size x normalize, plus the [0,1] range and the value 1 on downward-closed inputs."),
+    "C16": ("§4 C16", "a generator is a nondeterministic action whose admissible outputs are the predicate GenPost of "
+            "Gen.tla (node set, allowed sizes, no repeats, p=0 / p=1, block patterns, degree bounds, exact edge sets of "
+            "the deterministic generators, closure and clique structure of the simplicial generators); TLC evaluates it "
+            "on every generated network over parameter grids x seeds, and checks the three index-decoding tables to be "
+            "bijections for all n, m <= 7."),
+    "C17": ("§4 C17", "Seeded.tla enumerates every schedule (two seeds, draws from and re-seeding of the global Python "
+            "and NumPy generators in between) of bounded length; each schedule is executed in one interpreter for every "
+            "function with a seed parameter (found by introspection) and TLC checks the memo rule on the recorded "
+            "output digests."),
+    "C20": ("§4 C20", "Scene.tla defines the abstract scene (marker sequence, bag of lines, bag of polygon vertex sets) of "
+            "a network and max_order, the layout domain and the barycenter identity; the harness draws with injective "
+            "integer positions so that every artist coordinate maps back to a node, and TLC compares."),
 }
 NOTE = ("Trusted: TLC, the harness projection/adapter (self-tested on every run by corrupting recorded fields), "
         "and the bounded universes listed in the evidence; outside them only random histories.")
